@@ -421,6 +421,104 @@ def cap_rule(index, ctx, cls, fwd):
                         + (f" (`{norm_text(wit.ast)[:70]}`)" if wit is not None else "") + ": those calls return vectors longer than max_norm", fwd.loc(wit.ast) if wit is not None else fwd.loc())
 
 
+# ---------------------------------------------------------------------------------------------------- R6: tensors handed to numpy
+_VIEWLIKE = {"cpu", "to", "clone", "reshape", "view", "float", "double", "contiguous", "squeeze", "unsqueeze", "t", "flatten", "type", "half"}
+_DETACHING = {"detach", "item", "tolist", "detach_"}
+
+
+def numpy_crossing_rule(ctx, cls, fwd, fcfg):
+    ctx.rule("R6", "every tensor handed to numpy (`.numpy()`, `np.asarray` / `np.array` of a tensor) that is computed from forward's input passes through detach() first: "
+                   "the matrix may be part of an autograd graph, and numpy refuses a tensor that requires grad — such a call would not succeed")
+    params_t = {a.arg for a in fwd.node.args.args[1:]}
+    rd_cache: dict = {}
+
+    def rd(var):
+        if var not in rd_cache:
+            rd_cache[var] = reaching_defs(fcfg, var)
+        return rd_cache[var]
+
+    def comb(xs):
+        xs = list(xs)
+        return "attached" if "attached" in xs else ("unknown" if "unknown" in xs else "detached")
+
+    def status(e, n, seen, depth=0):
+        """attached: computed from the input without detach() / detached: cut from the graph (or no tensor of the graph at all) / unknown"""
+        if depth > 12:
+            return "unknown"
+        if isinstance(e, ast.Constant):
+            return "detached"
+        if isinstance(e, ast.Name):
+            defs = rd(e.id).get(n, set()) if n is not None else set()
+            if not defs:
+                return "attached" if e.id in params_t else "unknown"
+            out = []
+            for d in defs:
+                if (e.id, d) in seen:
+                    continue
+                s2 = seen | {(e.id, d)}
+                if isinstance(d.ast, ast.Assign):
+                    out.append(status(d.ast.value, d, s2, depth + 1))
+                else:
+                    out.append(comb([status(ast.Name(id=e.id, ctx=ast.Load()), d, s2, depth + 1), status(d.ast.value, d, s2, depth + 1)]))
+            return comb(out) if out else "detached"
+        if isinstance(e, ast.Attribute):
+            if e.attr == "data":
+                return "detached"
+            if self_attr(e):
+                return "unknown"
+            return status(e.value, n, seen, depth + 1)
+        if isinstance(e, ast.Call):
+            f = e.func
+            if isinstance(f, ast.Attribute) and f.attr in _DETACHING:
+                return "detached"
+            args = list(e.args) + [k.value for k in e.keywords]
+            if isinstance(f, ast.Attribute) and not norm_text(f).startswith(("torch.", "F.", "np.", "numpy.")):
+                return comb([status(f.value, n, seen, depth + 1)] + ([status(a, n, seen, depth + 1) for a in args] if f.attr not in _VIEWLIKE else []))
+            if norm_text(f).startswith(("torch.", "F.")):
+                return comb(status(a, n, seen, depth + 1) for a in args) if args else "detached"
+            return "unknown"
+        if isinstance(e, ast.BinOp):
+            return comb([status(e.left, n, seen, depth + 1), status(e.right, n, seen, depth + 1)])
+        if isinstance(e, ast.UnaryOp):
+            return status(e.operand, n, seen, depth + 1)
+        if isinstance(e, ast.Subscript):
+            return status(e.value, n, seen, depth + 1)
+        return "unknown"
+
+    def in_no_grad(node):
+        for w in ast.walk(fwd.node):
+            if isinstance(w, ast.With) and any("no_grad" in norm_text(i.context_expr) for i in w.items) and any(x is node for x in ast.walk(w)):
+                return True
+        return False
+
+    n_sites = 0
+    for n in fcfg.stmt_nodes():
+        for ex in own_exprs(n):
+            for c in ast.walk(ex):
+                if not isinstance(c, ast.Call):
+                    continue
+                operand = None
+                if isinstance(c.func, ast.Attribute) and c.func.attr == "numpy" and not c.args:
+                    operand = c.func.value
+                elif norm_text(c.func) in ("np.asarray", "np.array", "np.asanyarray", "numpy.asarray", "numpy.array", "np.ascontiguousarray") and c.args:
+                    operand = c.args[0]
+                if operand is None:
+                    continue
+                st_ = status(operand, n, frozenset())
+                if st_ == "unknown" and not (isinstance(c.func, ast.Attribute) and c.func.attr == "numpy"):
+                    continue  # np.array of something that is not visibly a tensor of the graph
+                n_sites += 1
+                if in_no_grad(c):
+                    st_ = "detached" if st_ != "attached" or not isinstance(operand, ast.Name) else st_
+                ctx.require(st_ != "attached", "R6", f"forward: `{norm_text(c)[:70]}` receives a detached tensor",
+                            f"`{norm_text(operand)[:70]}`: {st_}",
+                            f"`{norm_text(operand)[:80]}` is computed from forward's input with no detach() on the way: when the matrix requires grad or is the result of an "
+                            "operation (which is how Jacobians reach an aggregator inside a training loop), numpy refuses it and the call raises instead of returning weights",
+                            fwd.loc(c))
+    ctx.extra["numpy_crossings_in_forward"] = n_sites
+
+
+
 def stored_is_returned_rule(ctx, cls):
     """R2 (second half): what the optimiser stores for reuse is what it hands back — `self.prvs_alpha = X ... return Y` must name the same value."""
     for f in cls.methods.values():
@@ -1029,5 +1127,6 @@ def check(index, ctx):
                     "(torch.from_numpy / .to() return views when no conversion is needed): the stored weights would not be reused unchanged", fwd.loc(a))
     cap_rule(index, ctx, cls, fwd)
     stored_is_returned_rule(ctx, cls)
+    numpy_crossing_rule(ctx, cls, fwd, fcfg)
     ctx.assumptions += ["kinds are inferred from construction forms (torch.* -> tensor, np.* -> ndarray, .numpy() -> ndarray)",
                         "solver convergence is numerical and NOT decided; of `||result|| <= max_norm` only the shape of the cap is decided (R4)"]
